@@ -1,1 +1,2 @@
+import Neutrino.Props.C15
 import Neutrino.Props.C16
